@@ -117,6 +117,31 @@ def run_once(target, nr, nrho, nelem, route, k, candidates=None, exc_cls=None):
     out = sink.nonempty()
     size = sum(len(w) for w in out)
     nwrites = len(out)
+  elif route == "write_gzip":
+    # a caller-supplied compressed text stream: it reports seekable() but cannot rewind while writing
+    import gzip
+    d = tempfile.mkdtemp(prefix="c17_")
+    path = os.path.join(d, "out.table.gz")
+    try:
+      fp = gzip.open(path, "wt")
+      try:
+        try:
+          tab.write(fp)
+        except (exc_cls or Boom) as e:
+          exc = e
+        except OSError as e:
+          # a failed attempt to roll the stream back: the write still failed, what counts is what the file holds
+          exc = e
+      finally:
+        try:
+          fp.close()
+        except Exception:  # noqa
+          pass
+      with gzip.open(path, "rt") as f:
+        size = len(f.read())
+      nwrites = 1 if size else 0
+    finally:
+      shutil.rmtree(d, ignore_errors=True)
   else:
     from atsim.potentials.tools.potable import _actions
     d = tempfile.mkdtemp(prefix="c17_")
@@ -368,6 +393,8 @@ def cases(tier, seed=0):
     for (nr, nrho, ne) in grids:
       for route in ("write", "action_tabulate"):
         cs.append(Case("fault %s %d %d %d %s" % (t, nr, nrho, ne, route), fault_case, target=t, nr=nr, nrho=nrho, nelem=ne, route=route))
+    if not t.startswith("excel"):
+      cs.append(Case("fault %s gzip stream" % t, fault_case, target=t, nr=8 if t == "DLPOLY" else 4, nrho=3, nelem=2, route="write_gzip"))
     for kind in ("StopIteration", "KeyError", "ArithmeticError"):
       # the kind of exception must not matter (StopIteration in particular is swallowed by iterator protocols)
       cs.append(Case("fault %s %s" % (t, kind), fault_case, target=t, nr=8 if t == "DLPOLY" else 4, nrho=3, nelem=2, route="write", exc=kind))
